@@ -21,7 +21,17 @@ import (
 
 type Rng struct{ s uint64 }
 
-func NewRng(seed uint64) *Rng { return &Rng{seed*0x9E3779B97F4A7C15 + 0x1234567} }
+// NewRng: the state is a full avalanche mix of the seed, so that consecutive seeds give unrelated streams
+// (seed*golden would make the streams of s and s+1 the same sequence shifted by one draw).
+func NewRng(seed uint64) *Rng {
+	z := seed + 0x9E3779B97F4A7C15
+	z = (z ^ (z >> 30)) * 0xBF58476D1CE4E5B9
+	z = (z ^ (z >> 27)) * 0x94D049BB133111EB
+	z ^= z >> 31
+	z = (z ^ 0xA5A5A5A55A5A5A5A) * 0xD6E8FEB86659FD93
+	z ^= z >> 32
+	return &Rng{z}
+}
 func (r *Rng) U64() uint64 {
 	r.s += 0x9E3779B97F4A7C15
 	z := r.s
